@@ -37,6 +37,10 @@ TRUSTED_BASE = [
 ]
 
 
+class InfrastructureError(RuntimeError):
+    """lake / driver / toolchain problems: exit 2, never a verdict"""
+
+
 def clean_env():
     env = dict(os.environ)
     env.pop("LEAN_PATH", None)
@@ -213,7 +217,7 @@ class Driver:
                 except json.JSONDecodeError:
                     outs.append({"err": "unparsable-driver-line", "raw": x[:200]})
         if len(outs) != len(lines):
-            raise RuntimeError(f"driver returned {len(outs)} lines for {len(lines)} requests; rc={p.returncode}; "
+            raise InfrastructureError(f"driver returned {len(outs)} lines for {len(lines)} requests; rc={p.returncode}; "
                                f"stderr={p.stderr[-1500:]} stdout-tail={p.stdout[-500:]}")
         return outs
 
